@@ -12,20 +12,23 @@ import torch
 from . import num
 
 
-def tensor_bytes(t):
-    """Canonical bytes of any tensor (plain or quantized), including inner tensors and meta strings."""
+def tensor_bytes(t, layout=False):
+    """Canonical bytes of any tensor (plain or quantized), including inner tensors and meta strings.
+    layout=True adds the strides of every plain tensor (state keys: a channels_last weight is another state than the same values
+    stored contiguously; observations such as model outputs are compared by value only)."""
     from optimum.quanto import QTensor
 
     if isinstance(t, QTensor):
         names, meta = t.__tensor_flatten__()
         parts = [repr(sorted(meta.items())).encode(), type(t).__name__.encode()]
         for n in names:
-            parts.append(tensor_bytes(getattr(t, n)))
+            parts.append(tensor_bytes(getattr(t, n), layout))
         return b"|".join(parts)
     if hasattr(t, "_data") and type(t) is not torch.Tensor and hasattr(t, "_bits"):
-        return b"packed" + str(t._bits).encode() + str(tuple(t.shape)).encode() + tensor_bytes(t._data)
+        return b"packed" + str(t._bits).encode() + str(tuple(t.shape)).encode() + tensor_bytes(t._data, layout)
     t = t.detach()
-    return str(t.dtype).encode() + str(tuple(t.shape)).encode() + num.bits_of(t).contiguous().numpy().tobytes()
+    lay = (b"s" + str(tuple(t.stride())).encode()) if layout and not t.is_contiguous() else b""
+    return str(t.dtype).encode() + str(tuple(t.shape)).encode() + lay + num.bits_of(t).contiguous().numpy().tobytes()
 
 
 _BASE_ATTRS = None
@@ -66,7 +69,7 @@ def model_hash(model, extra=()):
             h.update(_digest(m.__dict__[k]))
         for pn, p in list(m.named_parameters(recurse=False)) + list(m.named_buffers(recurse=False)):
             h.update(pn.encode())
-            h.update(tensor_bytes(p))
+            h.update(tensor_bytes(p, layout=True))
             h.update(b"g1" if p.requires_grad else b"g0")
     for e in extra:
         h.update(repr(e).encode())
